@@ -107,6 +107,8 @@ fn c12_lu_singular_col0_fulldomain_n2() {
     let c0 = a[0][0].re.abs() > 0.0;
     let c1 = a[1][0].re.abs() > 0.0;
     let r = LU::<Dual64, f64>::new(arr2(&a));
+    kani::cover!(r.is_ok(), "full domain: Ok reachable");
+    kani::cover!(r.is_err() && (c0 || c1), "full domain: Err at the second step reachable");
     if !c0 && !c1 {
         assert!(r.is_err(), "column 0 without a candidate pivot (|re| > 0 false for both: zero or NaN) => Err");
     }
@@ -263,90 +265,50 @@ fn c12_lu_solve_exact_n2_eps_t3() {
 }
 
 // ------------------------------------------------------------------ (c) determinant
-fn check_det(m: &M2) {
+/// returns whether LU::new was Ok (used for the reachability goals: a routine that always
+/// reports "singular" must not let these harnesses pass vacuously)
+fn check_det(m: &M2) -> bool {
     let lu = match LU::<Dual64, f64>::new(m.arr()) {
         Ok(lu) => lu,
-        Err(_) => return, // singular real part: covered by c12_lu_singular_n2
+        Err(_) => return false, // singular real part: covered by c12_lu_singular_n2
     };
     let d = lu.determinant();
     assert!(d.re == m.det_re() as f64, "determinant().re == a00*a11 - a01*a10 (exact, sign incl. permutation parity)");
     assert!(d.eps == m.det_eps() as f64, "determinant().eps == derivative of a00*a11 - a01*a10 (Jacobi's formula), exact");
+    true
 }
 /// fully symbolic: only the first pivot is divided by, no assumption beyond the grid
 #[kani::proof]
 #[kani::unwind(4)]
 fn c12_lu_det_exact_n2() {
     let m = any_m2();
-    kani::cover!(m.det_re() != 0 && m.swaps(), "determinant: row-exchange path (sign flipped by the permutation parity)");
-    kani::cover!(m.det_re() != 0 && !m.swaps(), "determinant: no-exchange path");
-    check_det(&m);
+    let ok = check_det(&m);
+    kani::cover!(ok && m.swaps(), "determinant: row-exchange path (sign flipped by the permutation parity)");
+    kani::cover!(ok && !m.swaps(), "determinant: no-exchange path");
 }
 #[kani::proof]
 #[kani::unwind(4)]
 fn c12_lu_det_exact_n2_re() {
     let m = re_m2();
-    kani::cover!(m.det_re() != 0 && m.swaps(), "determinant: row-exchange path");
-    kani::cover!(m.det_re() != 0 && !m.swaps(), "determinant: no-exchange path");
-    check_det(&m);
+    let ok = check_det(&m);
+    kani::cover!(ok && m.swaps(), "determinant: row-exchange path");
+    kani::cover!(ok && !m.swaps(), "determinant: no-exchange path");
 }
 #[kani::proof]
 #[kani::unwind(4)]
 fn c12_lu_det_exact_n2_eps_t1() {
-    check_det(&tab_m2(1));
+    let ok = check_det(&tab_m2(1));
+    kani::cover!(ok, "LU::new is Ok for table matrix 1 (row exchange)");
 }
 #[kani::proof]
 #[kani::unwind(4)]
 fn c12_lu_det_exact_n2_eps_t3() {
-    check_det(&tab_m2(3));
+    let ok = check_det(&tab_m2(3));
+    kani::cover!(ok, "LU::new is Ok for table matrix 3 (no exchange)");
 }
 
 // ------------------------------------------------------------------ (d) inverse
-/// inverse() == adj(A) / det(A) exactly as dual numbers, entry by entry -- for a regular A the
-/// same statement as A A^-1 == I (re 1/0, eps 0).
-fn check_inverse(m: &M2, col: usize) {
-    let lu = match LU::<Dual64, f64>::new(m.arr()) {
-        Ok(lu) => lu,
-        Err(_) => {
-            assert!(false, "det(A.re) != 0 => LU::new is Ok");
-            return;
-        }
-    };
-    let ia: Array2<Dual64> = lu.inverse();
-    let d = m.det_id();
-    if col == 0 {
-        assert!(is_quotient(ia[(0, 0)], m.id(1, 1), d), "inverse[0][0] == a11 / det(A) exactly (re, eps)");
-        assert!(is_quotient(ia[(1, 0)], m.id(1, 0).neg(), d), "inverse[1][0] == -a10 / det(A) exactly (re, eps)");
-    } else {
-        assert!(is_quotient(ia[(0, 1)], m.id(0, 1).neg(), d), "inverse[0][1] == -a01 / det(A) exactly (re, eps)");
-        assert!(is_quotient(ia[(1, 1)], m.id(0, 0), d), "inverse[1][1] == a00 / det(A) exactly (re, eps)");
-    }
-}
-/// one column of the inverse per harness (CBMC's slicer drops the other column's arithmetic)
-macro_rules! inv_re {
-    ($name:ident, $col:literal) => {
-        #[kani::proof]
-        #[kani::unwind(4)]
-        fn $name() {
-            let m = re_m2();
-            kani::assume(is_pow2_le8(m.det_re()));
-            kani::cover!(m.swaps(), "inverse: row-exchange path");
-            kani::cover!(!m.swaps(), "inverse: no-exchange path");
-            check_inverse(&m, $col);
-        }
-    };
-}
-inv_re!(c12_lu_inverse_exact_n2_re_col0, 0);
-inv_re!(c12_lu_inverse_exact_n2_re_col1, 1);
-macro_rules! inv_eps {
-    ($name:ident, $t:literal, $col:literal) => {
-        #[kani::proof]
-        #[kani::unwind(4)]
-        fn $name() {
-            check_inverse(&tab_m2($t), $col);
-        }
-    };
-}
-inv_eps!(c12_lu_inverse_exact_n2_eps_t1_col0, 1, 0);
-inv_eps!(c12_lu_inverse_exact_n2_eps_t1_col1, 1, 1);
-inv_eps!(c12_lu_inverse_exact_n2_eps_t3_col0, 3, 0);
-inv_eps!(c12_lu_inverse_exact_n2_eps_t3_col1, 3, 1);
+// NOT TRACTABLE IN KANI: `LU::inverse` (2-D `Array2::zeros` + indexed writes) makes CBMC
+// exceed 35 GB / 20 min for a SINGLE harness even in the cheapest slice (concrete real
+// parts, symbolic eps, one column asserted).  The inverse is therefore covered by the native
+// exhaustive enumeration in `c12_native.rs` (label: bounded/test, not a Kani proof).
